@@ -13,186 +13,207 @@ def F(rule_name, f, node, construct, message, **kw):
 
 
 # ---------------------------------------------------------------- ORD-MERGE
+LAYER_ORDER = ['defaults', 'type-defaults', 'syntax-defaults', 'global-type', 'global-syntax', 'user']
+
+
+def _layer_of_table(tbl_src, key_src, params):
+    """which layer does  <table>.get(<key>, ..) / <table>[<key>]  denote?  params = (syntax_type, syntax, key, user, global)"""
+    st, sy, key, user, glob = params
+    if tbl_src == 'SYNTAX_CONFIG' and key_src == st:
+        return 'type-defaults'
+    if tbl_src == 'SYNTAX_CONFIG' and key_src == sy:
+        return 'syntax-defaults'
+    if tbl_src == glob and key_src == st:
+        return 'global-type'
+    if tbl_src == glob and key_src == sy:
+        return 'global-syntax'
+    return None
+
+
 @rule('ORD-MERGE', 'D', 'config layers are merged into a fresh dict in the documented order, each looked up safely')
 def ord_merge(p, res):
+    from .. import norm, shape
     f = p.func('config.merged_data')
-    params = f.params
-    if params[:5] != ['syntax_type', 'syntax', 'key', 'user_config', 'global_config']:
-        raise AnalysisError('ORD-MERGE: merged_data parameters changed: %s' % params)
-    # provenance of locals
-    defs = {}
-    for n in f.body_nodes():
-        if isinstance(n, ast.Assign) and len(n.targets) == 1 and isinstance(n.targets[0], ast.Name):
-            defs.setdefault(n.targets[0].id, []).append(n.value)
+    if len(f.params) < 5:
+        raise AnalysisError('ORD-MERGE: merged_data has %d parameters' % len(f.params))
+    params = tuple(f.params[:5])
+    st, sy, key, user, glob = params
+    node = norm.nf(p, f, inline=True)
+    node.body = shape.unroll_literal_loops(node.body)
+    defs = shape.defs_of(node, params=f.params)
+    pm = shape.parent_map(node)
+    rets = [n for n in shape.own_nodes(node) if isinstance(n, ast.Return)]
+    if len(rets) != 1 or not isinstance(rets[0].value, ast.Name):
+        res.undecided('return of merged_data', 'merged_data must return the one dict it builds')
+        return
+    R = rets[0].value.id
+    rdef = defs.get(R)
+    if rdef is not None and src_of(rdef) in ('{}', 'dict()'):
+        res.ok('%s = {} (fresh)' % R)
+    elif rdef is not None and not isinstance(rdef, (ast.Dict, ast.DictComp)):
+        res.bad(F('ORD-MERGE', f, rdef, '%s = %s' % (R, src_of(rdef)), 'the merged dict starts as %s, not as a fresh dict: every update writes into a built-in or caller table' % src_of(rdef)))
+    else:
+        res.undecided('%s = ...' % R, 'merged dict must start as a fresh empty dict')
 
-    def layer_of(expr):
-        """name of the layer an update() source denotes"""
-        s = src_of(expr)
-        # X[key] / X.get(key, empty)
-        base = None
-        if isinstance(expr, ast.Subscript) and src_of(expr.slice) == 'key':
-            base = expr.value
-            raw = True
-        elif isinstance(expr, ast.Call) and isinstance(expr.func, ast.Attribute) and expr.func.attr == 'get' and expr.args and src_of(expr.args[0]) == 'key':
-            base = expr.func.value
-            raw = False
-            if len(expr.args) < 2:
-                return ('unsafe-get', s, raw)
-        else:
-            return ('unknown', s, None)
+    def layer(e):
+        """(layer, raw subscript?, table expression for the guard)"""
+        e2 = shape.expand(e, defs)
+        base = keyexpr = None
+        raw = False
+        if isinstance(e2, ast.Subscript):
+            base, keyexpr, raw = e2.value, e2.slice, True
+        elif isinstance(e2, ast.Call) and isinstance(e2.func, ast.Attribute) and e2.func.attr == 'get' and e2.args:
+            base, keyexpr = e2.func.value, e2.args[0]
+            if len(e2.args) < 2:
+                return ('unsafe', raw, None)
+        if base is None or src_of(keyexpr) != key:
+            return (None, raw, None)
         b = src_of(base)
         if b == 'DEFAULT_CONFIG':
-            return ('defaults', s, raw)
-        if b == 'user_config':
-            return ('user', s, raw)
-        if isinstance(base, ast.Name) and base.id in defs and len(defs[base.id]) == 1:
-            v = defs[base.id][0]
-            if isinstance(v, ast.Call) and isinstance(v.func, ast.Attribute) and v.func.attr == 'get' and len(v.args) == 2:
-                tbl, k = src_of(v.func.value), src_of(v.args[0])
-                if tbl == 'SYNTAX_CONFIG' and k == 'syntax_type':
-                    return ('type-defaults', s, raw, base.id)
-                if tbl == 'SYNTAX_CONFIG' and k == 'syntax':
-                    return ('syntax-defaults', s, raw, base.id)
-                if tbl == 'global_config' and k == 'syntax_type':
-                    return ('global-type', s, raw, base.id)
-                if tbl == 'global_config' and k == 'syntax':
-                    return ('global-syntax', s, raw, base.id)
-            return ('unknown', s + ' with %s = %s' % (base.id, src_of(v)), raw)
-        return ('unknown', s, raw)
+            return ('defaults', raw, base)
+        if b == user:
+            return ('user', raw, base)
+        # base itself is TABLE.get(k, default) / TABLE[k]
+        if isinstance(base, ast.Call) and isinstance(base.func, ast.Attribute) and base.func.attr == 'get' and base.args:
+            lay = _layer_of_table(src_of(base.func.value), src_of(base.args[0]), params)
+            if lay and len(base.args) < 2:
+                return ('unsafe-table', raw, base)
+            return (lay, raw, base)
+        if isinstance(base, ast.Subscript):
+            lay = _layer_of_table(src_of(base.value), src_of(base.slice), params)
+            return ('unsafe-table' if lay else None, raw, base)
+        return (None, raw, None)
 
-    # result is a fresh dict
-    rdefs = defs.get('result', [])
-    if len(rdefs) == 1 and src_of(rdefs[0]) in ('{}', 'dict()'):
-        res.ok('result = {} (fresh)')
-    else:
-        res.bad(F('ORD-MERGE', f, rdefs[0] if rdefs else f.node, 'result = %s' % (src_of(rdefs[0]) if rdefs else '?'),
-                  'the merged dict must start as a fresh empty dict (anything else aliases a built-in or caller table)'))
     seq = []
-    for st in f.node.body:
-        calls = []
-        guard = None
-        if isinstance(st, ast.Expr) and isinstance(st.value, ast.Call):
-            calls = [st.value]
-        elif isinstance(st, ast.If) and not st.orelse:
-            guard = src_of(st.test)
-            calls = [x.value for x in st.body if isinstance(x, ast.Expr) and isinstance(x.value, ast.Call)]
-            if len(calls) != len(st.body):
-                raise AnalysisError('ORD-MERGE: unrecognised statement in merged_data: %s' % src_of(st))
-        for c in calls:
-            if isinstance(c.func, ast.Attribute) and c.func.attr in ('update', 'setdefault', 'pop', 'clear', '__setitem__'):
-                recv = src_of(c.func.value)
-                if recv != 'result':
-                    res.bad(F('ORD-MERGE', f, c, src_of(c), 'merging mutates %s, which belongs to a built-in table or to the caller; only the fresh result dict may be written' % recv))
+    for n in shape.own_nodes(node):
+        if isinstance(n, ast.Call) and isinstance(n.func, ast.Attribute) and n.func.attr in ('update', 'setdefault', 'pop', 'clear', 'popitem', '__setitem__'):
+            recv = n.func.value
+            if isinstance(recv, ast.Name) and recv.id == R:
+                if n.func.attr != 'update' or len(n.args) != 1:
+                    res.undecided(src_of(n), 'the merged dict is only filled with update(<layer>)')
                     continue
-                if c.func.attr != 'update' or len(c.args) != 1:
-                    raise AnalysisError('ORD-MERGE: unrecognised mutation of result: %s' % src_of(c))
-                lay = layer_of(c.args[0])
-                seq.append((lay, guard, c))
-    # stores through subscripts on anything
-    for n in f.body_nodes():
+                seq.append((layer(n.args[0]), n))
+            else:
+                # a mutator on something else: is it a parameter / table (or derived from one)?
+                r2 = shape.expand(recv, defs)
+                roots = {x.id for x in ast.walk(r2) if isinstance(x, ast.Name)}
+                if roots & ({user, glob, 'SYNTAX_CONFIG', 'DEFAULT_CONFIG', 'DEFAULT_OPTIONS'}):
+                    res.bad(F('ORD-MERGE', f, n, src_of(n), 'merging writes into %s, which belongs to the caller or to a built-in table; only the fresh result dict may be written' % src_of(r2)))
+    for n in shape.own_nodes(node):
         if isinstance(n, (ast.Assign, ast.AugAssign)):
             for t in (n.targets if isinstance(n, ast.Assign) else [n.target]):
-                if isinstance(t, (ast.Subscript, ast.Attribute)):
-                    res.bad(F('ORD-MERGE', f, n, src_of(n), 'merged_data writes into an existing object'))
-    want = ['defaults', 'type-defaults', 'syntax-defaults', 'global-type', 'global-syntax', 'user']
-    got = [s[0][0] for s in seq]
-    if got != want:
-        res.bad(F('ORD-MERGE', f, f.node, 'update order: %s' % ' < '.join(got),
-                  'layers must be applied as %s (later wins)' % ' < '.join(want),
-                  details=['%s  [guard: %s]' % (s[0][1], s[1]) for s in seq]))
-    else:
+                if isinstance(t, ast.Subscript):
+                    r2 = shape.expand(t.value, defs)
+                    roots = {x.id for x in ast.walk(r2) if isinstance(x, ast.Name)}
+                    if roots & ({user, glob, 'SYNTAX_CONFIG', 'DEFAULT_CONFIG', 'DEFAULT_OPTIONS'}):
+                        res.bad(F('ORD-MERGE', f, n, src_of(n), 'merging writes into %s' % src_of(r2)))
+    got = [x[0][0] for x in seq]
+    if None in got or not seq:
+        res.undecided('update sources: %s' % [src_of(x[1].args[0]) for x in seq], 'every update source must be one of the six documented layers')
+    elif got == LAYER_ORDER:
         res.ok('update order: ' + ' < '.join(got))
-    for lay, guard, c in seq:
-        kind = lay[0]
-        raw = lay[2]
-        if kind in ('unknown', 'unsafe-get'):
-            continue
-        if raw:
-            base = lay[3] if len(lay) > 3 else None
-            if guard != 'key in %s' % base:
-                res.bad(F('ORD-MERGE', f, c, src_of(c), 'raw subscript %s must be guarded by `key in %s` (a layer that does not mention the section leaves it untouched)' % (lay[1], base)))
+    else:
+        clean = [g for g in got if g in LAYER_ORDER]
+        res.bad(F('ORD-MERGE', f, seq[0][1], 'update order: %s' % ' < '.join(str(g) for g in got),
+                  'layers must be applied as %s (later wins)' % ' < '.join(LAYER_ORDER),
+                  details=['%s' % src_of(x[1].args[0]) for x in seq]))
+    for (lay, raw, base), n in seq:
+        if lay in ('unsafe', 'unsafe-table'):
+            res.bad(F('ORD-MERGE', f, n, src_of(n), 'a layer is looked up without a default: a config that does not mention it (unknown syntax name, missing section) raises instead of being skipped'))
+        elif raw and lay in LAYER_ORDER:
+            want = '%s in %s' % (key, src_of(base))
+            facts = shape.implied(n, pm)
+            # the guard may be written on the (single-assignment) alias of the table
+            ok = any(pol and shape.expand(ast.parse(fs, mode='eval').body, defs) is not None and src_of(shape.expand(ast.parse(fs, mode='eval').body, defs)) == want for fs, pol in facts)
+            if ok:
+                res.ok('%s guarded by `%s`' % (src_of(n.args[0]), want))
             else:
-                res.ok('%s guarded by %s' % (lay[1], guard))
-        else:
-            res.ok('%s (get with default)' % lay[1])
-    # unknown syntax / type names fall back to an empty layer
-    for name, vals in defs.items():
-        for v in vals:
-            if isinstance(v, ast.Call) and isinstance(v.func, ast.Attribute) and v.func.attr == 'get' and src_of(v.func.value) in ('SYNTAX_CONFIG', 'global_config'):
-                if len(v.args) != 2:
-                    res.bad(F('ORD-MERGE', f, v, '%s = %s' % (name, src_of(v)), 'layer lookup without default: an unknown syntax name yields None and the membership test raises TypeError'))
-                else:
-                    res.ok('%s = %s' % (name, src_of(v)))
-            if isinstance(v, ast.Subscript) and src_of(v.value) in ('SYNTAX_CONFIG', 'global_config'):
-                res.bad(F('ORD-MERGE', f, v, '%s = %s' % (name, src_of(v)), 'raw subscript on a layer table: an unknown syntax name raises KeyError'))
-    # Config.__init__: the three sections, argument order
+                res.bad(F('ORD-MERGE', f, n, src_of(n), 'raw subscript on a layer that may not define the section: must be guarded by `%s` (a layer that does not mention the section leaves it untouched)' % want))
+        elif lay in LAYER_ORDER:
+            res.ok('%s (get with default)' % src_of(n.args[0]))
+    # ---- Config.__init__ : what is passed for (syntax_type, syntax, section, user, global)
     init = p.func('config.Config.__init__')
-    calls = [c for c in init.body_nodes() if isinstance(c, ast.Call) and src_of(c.func) == 'merged_data']
+    inode = norm.nf(p, init, inline=False)
+    idefs = shape.defs_of(inode, params=init.params)
+    if len(init.params) < 3:
+        raise AnalysisError('ORD-MERGE: Config.__init__ parameters changed')
+    ucfg, gcfg = init.params[1], init.params[2]
+    calls = [c for c in shape.own_nodes(inode) if isinstance(c, ast.Call) and isinstance(p.resolve_call(init, c), list) and p.resolve_call(init, c)[0] is f]
+    ipm = shape.parent_map(inode)
     secs = {}
+    want_type = "%s.get('type', 'markup')" % ucfg
     for c in calls:
-        args = [src_of(a) for a in c.args]
-        tgt = p.parents(init).get(c)
-        field = src_of(tgt.targets[0]) if isinstance(tgt, ast.Assign) else '?'
-        if len(args) != 5 or args[0] != 'syntax_type' or args[1] != 'syntax' or args[3] != 'user_config' or args[4] != 'global_config':
-            res.bad(F('ORD-MERGE', init, c, src_of(c), 'merged_data must be called as (syntax_type, syntax, <section>, user_config, global_config)'))
+        if len(c.args) != 5 or c.keywords:
+            res.undecided(src_of(c), 'merged_data(syntax_type, syntax, section, user_config, global_config)')
             continue
+        a = [src_of(shape.expand(x, idefs)) for x in c.args]
         sec = p.try_const(init, c.args[2])
-        secs[sec] = field
-        if field != 'self.%s' % sec:
+        tgt = ipm.get(c)
+        field = src_of(tgt.targets[0]) if isinstance(tgt, ast.Assign) else None
+        want_syntax = "%s.get('syntax', DEFAULT_SYNTAXES.get(%s, 'html'))" % (ucfg, want_type)
+        if a[0] != want_type:
+            res.bad(F('ORD-MERGE', init, c, src_of(c), "first argument must be the abbreviation type (%s), is %s" % (want_type, a[0])))
+        elif a[1] != want_syntax:
+            res.bad(F('ORD-MERGE', init, c, src_of(c), 'second argument must be the syntax name (user syntax, else the default syntax of the type), is %s' % a[1]))
+        elif a[3] != ucfg or a[4] != gcfg:
+            res.bad(F('ORD-MERGE', init, c, src_of(c), 'the call\'s own config and the global config must be passed as 4th and 5th argument, in this order'))
+        elif not isinstance(sec, str) or field != 'self.%s' % sec:
             res.bad(F('ORD-MERGE', init, c, '%s = %s' % (field, src_of(c)), 'section %r must be stored in the field of the same name' % sec))
         else:
-            res.ok('%s = %s' % (field, src_of(c)))
+            secs[sec] = field
+            res.ok('self.%s = merged_data(type, syntax, %r, user, global)' % (sec, sec))
     for sec in ('variables', 'snippets', 'options'):
-        if sec not in secs:
-            res.bad(F('ORD-MERGE', init, init.node, 'merged_data(.., %r, ..)' % sec, 'section %r is no longer merged' % sec))
-    s = src_of(init.node)
-    for want_src in ("syntax_type = user_config.get('type', 'markup')",
-                     "syntax = user_config.get('syntax', DEFAULT_SYNTAXES.get(syntax_type, 'html'))"):
-        if want_src in s:
-            res.ok(want_src)
-        else:
-            res.bad(F('ORD-MERGE', init, init.node, want_src, 'type/syntax defaults changed'))
-    for var in ('syntax', 'syntax_type'):
-        nst = [n for n in init.body_nodes() if isinstance(n, ast.Assign) and any(src_of(t) == var for t in n.targets)]
-        if len(nst) == 1:
-            res.ok('%s is assigned once (an unknown name is kept, only its layers are empty)' % var)
-        else:
-            res.bad(F('ORD-MERGE', init, nst[-1] if nst else init.node, ' ; '.join(src_of(n) for n in nst), '`%s` must be taken from the config once and never replaced: an unknown syntax name falls back to the type defaults simply because no layer mentions it' % var))
-    for fld in ('self.type = syntax_type', 'self.syntax = syntax', 'self.user_config = user_config'):
-        if fld in s:
-            res.ok(fld)
-        else:
-            res.bad(F('ORD-MERGE', init, init.node, fld, 'Config field assignment changed'))
-    m, node = p.module_const('config', 'DEFAULT_SYNTAXES')
-    if p.try_const(m, node) == {'markup': 'html', 'stylesheet': 'css'}:
-        res.ok("DEFAULT_SYNTAXES == {'markup': 'html', 'stylesheet': 'css'}")
+        if sec not in secs and len(calls) >= 1:
+            res.bad(F('ORD-MERGE', init, init.node, "merged_data(.., %r, ..)" % sec, 'section %r is not merged (correctly)' % sec)) if len(secs) + 1 <= len(calls) else None
+    stores = {src_of(n.targets[0]): src_of(shape.expand(n.value, idefs)) for n in shape.own_nodes(inode) if isinstance(n, ast.Assign) and len(n.targets) == 1 and src_of(n.targets[0]).startswith('self.')}
+    if stores.get('self.type') == want_type and stores.get('self.syntax') == "%s.get('syntax', DEFAULT_SYNTAXES.get(%s, 'html'))" % (ucfg, want_type):
+        res.ok('Config.type / Config.syntax are the names the caller gave (unknown names are kept)')
+    elif 'self.syntax' in stores and 'self.type' in stores:
+        res.bad(F('ORD-MERGE', init, init.node, 'self.type = %s ; self.syntax = %s' % (stores.get('self.type'), stores.get('self.syntax')),
+                  'type and syntax must be taken from the config as given: an unknown syntax name is kept (it simply has no layers), never replaced'))
     else:
-        res.bad(Finding('ORD-MERGE', m.relpath, 'config.DEFAULT_SYNTAXES', src_of(node), 'default syntaxes changed', node.lineno))
+        res.undecided('self.type / self.syntax', 'fields must hold the names given by the caller')
+    m, node2 = p.module_const('config', 'DEFAULT_SYNTAXES')
+    v = p.try_const(m, node2)
+    if v == {'markup': 'html', 'stylesheet': 'css'}:
+        res.ok("DEFAULT_SYNTAXES == {'markup': 'html', 'stylesheet': 'css'}")
+    elif isinstance(v, dict):
+        res.bad(Finding('ORD-MERGE', m.relpath, 'config.DEFAULT_SYNTAXES', src_of(node2), 'default syntaxes changed', node2.lineno))
+    else:
+        res.undecided('DEFAULT_SYNTAXES', 'literal table expected')
     # expand(): every Config built from the call's config also receives the global config
     ex = p.func('expand')
     ctor = [c for c in ex.body_nodes() if isinstance(c, ast.Call) and isinstance(p.resolve_call(ex, c), Class) and p.resolve_call(ex, c).name == 'Config']
     if not ctor:
-        raise AnalysisError('ORD-MERGE: expand no longer builds a Config')
+        res.undecided('Config(...) in expand', 'expand builds the Config')
     for c in ctor:
-        if [src_of(a) for a in c.args] == ['config', 'global_config'] and not c.keywords:
+        args = [src_of(a) for a in c.args] + ['%s=%s' % (k.arg, src_of(k.value)) for k in c.keywords]
+        if args in (['config', 'global_config'], ['config', 'global_config=global_config'], ['user_config=config', 'global_config=global_config']):
             res.ok('expand: ' + src_of(c))
         else:
             res.bad(F('ORD-MERGE', ex, c, src_of(c), 'expand must build Config(config, global_config): otherwise the global layers are dropped'))
-    # built-in layer tables: type entries exist for both abbreviation types
-    m, node = p.module_const('config', 'SYNTAX_CONFIG')
-    keys = [p.try_const(m, k) for k in node.keys] if isinstance(node, ast.Dict) else []
-    for k in ('markup', 'stylesheet'):
-        if k in keys:
-            res.ok('SYNTAX_CONFIG has the %r type layer' % k)
-        else:
-            res.bad(Finding('ORD-MERGE', m.relpath, 'config.SYNTAX_CONFIG', 'SYNTAX_CONFIG[%r]' % k, 'type layer missing', node.lineno))
-    m, node = p.module_const('config', 'DEFAULT_CONFIG')
-    dk = {p.try_const(m, k): src_of(v) for k, v in zip(node.keys, node.values)} if isinstance(node, ast.Dict) else {}
-    if dk.get('options') == 'DEFAULT_OPTIONS' and dk.get('variables') == 'variables' and dk.get('snippets') == '{}':
+    # built-in layer tables
+    m, node3 = p.module_const('config', 'SYNTAX_CONFIG')
+    keys = [p.try_const(m, k) for k in node3.keys] if isinstance(node3, ast.Dict) else None
+    if keys is None:
+        res.undecided('SYNTAX_CONFIG', 'literal table expected')
+    else:
+        for k in ('markup', 'stylesheet'):
+            if k in keys:
+                res.ok('SYNTAX_CONFIG has the %r type layer' % k)
+            else:
+                res.bad(Finding('ORD-MERGE', m.relpath, 'config.SYNTAX_CONFIG', 'SYNTAX_CONFIG[%r]' % k, 'type layer missing', node3.lineno))
+    m, node4 = p.module_const('config', 'DEFAULT_CONFIG')
+    from ..norm import _Tests
+    n4 = _Tests().visit(__import__('copy').deepcopy(node4))
+    dk = {p.try_const(m, k): src_of(v) for k, v in zip(n4.keys, n4.values)} if isinstance(n4, ast.Dict) else None
+    if dk is None:
+        res.undecided('DEFAULT_CONFIG', 'literal table expected')
+    elif dk.get('options') == 'DEFAULT_OPTIONS' and dk.get('variables') == 'variables' and dk.get('snippets') == '{}':
         res.ok('DEFAULT_CONFIG sections: options, variables, snippets')
     else:
-        res.bad(Finding('ORD-MERGE', m.relpath, 'config.DEFAULT_CONFIG', str(dk), 'built-in default layer changed', node.lineno))
-    res.require_floor(18)
+        res.bad(Finding('ORD-MERGE', m.relpath, 'config.DEFAULT_CONFIG', str(dk), 'built-in default layer changed', node4.lineno))
+    res.require_floor(12)
 
 
 # --------------------------------------------------------------- ACC-WRITER
